@@ -9,7 +9,7 @@
    bsphere / btan / gtan / half_rt (Miniball, tangent-space arithmetic, binary16 round trip) are
    universally quantified: the statements hold whatever those functions compute. *)
 From NiflyVerif Require Import Res ShapeClass ShapeClassProofs ShapeQuant ShapeQuantProofs ShapeModel ShapeLoops
-  ShapeBsProofs ShapeBsCreate ShapeGeomProofs ShapeApiTheorems.
+  ShapeBsProofs ShapeBsCreate ShapeGeomProofs ShapeApiTheorems ShapeDescProofs.
 From Coq Require Import QArith Qabs.
 Local Open Scope N_scope.
 
@@ -361,6 +361,19 @@ Theorem C13_bs_finalize_frame : forall ver s s1, sa_bs_calc_data_sizes ver s = O
   /\ sa_b_bounds s1 = sa_b_bounds s /\ sa_b_kind s1 = sa_b_kind s /\ sa_b_seg s1 = sa_b_seg s.
 Proof. exact sa_bs_calc_data_sizes_frame. Qed.
 Print Assumptions C13_bs_finalize_frame.
+(* ... and keeps all sixteen flag bits of the descriptor (bit-level argument through SetAttributeOffset,
+   SetSize, SetFlags; the attribute-6 mask wipes bits 28..63 and SetFlags restores them) *)
+Theorem C13_bs_finalize_keeps_flags : forall ver s s1 k, sa_bs_calc_data_sizes ver s = Ok s1 -> k < 16 ->
+  N.testbit (sa_b_desc s1) (44 + k) = N.testbit (sa_b_desc s) (44 + k).
+Proof. exact sa_bs_calc_data_sizes_flags. Qed.
+Print Assumptions C13_bs_finalize_keeps_flags.
+Theorem C13_bs_finalize_keeps_has : forall ver s s1, sa_bs_calc_data_sizes ver s = Ok s1 ->
+  sa_bs_has s1 sa_VF_VERTEX = sa_bs_has s sa_VF_VERTEX /\ sa_bs_has s1 sa_VF_UV = sa_bs_has s sa_VF_UV
+  /\ sa_bs_has s1 sa_VF_NORMAL = sa_bs_has s sa_VF_NORMAL /\ sa_bs_has s1 sa_VF_TANGENT = sa_bs_has s sa_VF_TANGENT
+  /\ sa_bs_has s1 sa_VF_COLORS = sa_bs_has s sa_VF_COLORS /\ sa_bs_has s1 sa_VF_SKINNED = sa_bs_has s sa_VF_SKINNED
+  /\ sa_bs_has s1 sa_VF_EYEDATA = sa_bs_has s sa_VF_EYEDATA /\ sa_bs_has s1 sa_VF_FULLPREC = sa_bs_has s sa_VF_FULLPREC.
+Proof. exact sa_bs_calc_data_sizes_has. Qed.
+Print Assumptions C13_bs_finalize_keeps_has.
 (* with eye data the descriptor computation shifts an int by 36 bits (VertexData.hpp:86): the model faults *)
 Theorem C13_bs_finalize_eye_faults : forall ver s,
   sa_bs_has s sa_VF_EYEDATA = true -> sa_bs_calc_data_sizes ver s = Fault.
